@@ -14,8 +14,10 @@
     * `C20_precedence` / `C20_flag` / `C20_append` — for EVERY option of the regenerated common
       table (side conditions discharged by `decide` over the table): the namespace value equals
       `Spec.effective` of (default, what the TOML tokens say, what the command-line tokens say);
-    * `C20_unknown_ignored`, `C20_override_choice`, `C20_invalid_diagnosed_partial` (every wrongly
-      typed value of a known key, other than a boolean for an int option, is a type error);
+    * `C20_unknown_ignored`, `C20_override_choice`, `C20_invalid_diagnosed` (every wrongly typed
+      value of a known key is a type error — a TOML boolean is not an integer, fix 0abb989) and
+      its end-to-end form `C20_invalid_type_end_to_end` (the outcome of `parse_arguments` is the
+      re-raised error, or with `exit_on_error` the `fatal:` line + exit 1 of fix f47ae20);
     * counterexamples (`C20_cex_*`, by kernel evaluation of the model on the regenerated tables) for
       the defect classes of the pinned tree, and `C20_full_false`.
   Not proved (Tie B only): that `translate` of a multi-key table yields, per option, exactly the
@@ -717,20 +719,16 @@ def docType : TomlType → Option Spec.DocType
   | .listOfStrings => some .listOfStr
   | .unknown => none
 
-def isBoolVal : TVal → Bool
-  | .sc (.bool _) => true
-  | _ => false
-
-/-- Outside "a boolean for an int option", `is_valid` is exact typing. -/
-theorem isValid_eq_wellTyped (ty : TomlType) (d : Spec.DocType) (v : TVal) (hd : docType ty = some d)
-    (hx : ¬ (ty = .int ∧ isBoolVal v = true)) : ty.isValid v = Spec.wellTyped d v := by
+/-- `is_valid` is exact typing (a boolean is not an integer). -/
+theorem isValid_eq_wellTyped (ty : TomlType) (d : Spec.DocType) (v : TVal) (hd : docType ty = some d) :
+    ty.isValid v = Spec.wellTyped d v := by
   cases ty <;> simp [docType] at hd <;> subst hd
   · cases v with
     | sc s => cases s <;> rfl
     | list l => rfl
     | table => rfl
   · cases v with
-    | sc s => cases s <;> first | rfl | (exfalso; exact hx ⟨rfl, rfl⟩)
+    | sc s => cases s <;> rfl
     | list l => rfl
     | table => rfl
   · cases v with
@@ -768,24 +766,42 @@ theorem checkTypes_error (tm : Dict Str TomlType) (k : Str) (v : TVal) (ty : Tom
              · exact ih e
              · exact ⟨_, rfl⟩)
 
-/-- **C20 (invalid values are diagnosed), partial**: a known key whose value does not have the
-documented type makes `_validate_toml_config` fail — EXCEPT a boolean given for an int option
-(`C20_cex_bool_for_int`). Holds for every type map, hence for the regenerated one. -/
-theorem C20_invalid_diagnosed_partial (tm : Dict Str TomlType) (conf : Toml) (k : Str) (v : TVal)
+/-- **C20 (wrongly typed values are diagnosed)**: a known key whose value does not have exactly the
+documented type (a boolean is not an integer) makes `_validate_toml_config` fail. Holds for every
+type map, hence for the regenerated one. -/
+theorem C20_invalid_diagnosed (tm : Dict Str TomlType) (conf : Toml) (k : Str) (v : TVal)
     (ty : TomlType) (d : Spec.DocType)
     (hmem : (k, v) ∈ conf) (hk : Dict.get? tm k = some ty) (hd : docType ty = some d)
-    (hbad : Spec.wellTyped d v = false)
-    (hx : ¬ (ty = .int ∧ isBoolVal v = true)) :
+    (hbad : Spec.wellTyped d v = false) :
     ∃ e, validateToml tm conf = .error e := by
-  have hv : ty.isValid v = false := by rw [isValid_eq_wellTyped ty d v hd hx]; exact hbad
+  have hv : ty.isValid v = false := by rw [isValid_eq_wellTyped ty d v hd]; exact hbad
   have hm : (k, v) ∈ prune tm conf := by
     simp only [prune, List.mem_filter, contains_eq, hk, Option.isSome_some, and_true]; exact hmem
   obtain ⟨e, he⟩ := checkTypes_error tm k v ty hk hv _ hm
   exact ⟨e, by unfold validateToml; rw [he]⟩
 
 example : ∃ e, validateToml tomlTypeMap [(str "bogus", .table), (str "threshold", .sc (.str (.word (str "x"))))] = .error e :=
-  C20_invalid_diagnosed_partial tomlTypeMap _ (str "threshold") (.sc (.str (.word (str "x")))) .int .int
-    (List.mem_cons_of_mem _ List.mem_cons_self) (by decide +kernel) rfl rfl (by decide)
+  C20_invalid_diagnosed tomlTypeMap _ (str "threshold") (.sc (.str (.word (str "x")))) .int .int
+    (List.mem_cons_of_mem _ List.mem_cons_self) (by decide +kernel) rfl rfl
+
+example : ∃ e, validateToml tomlTypeMap [(str "follow-imports", .sc (.bool false))] = .error e :=
+  C20_invalid_diagnosed tomlTypeMap _ (str "follow-imports") (.sc (.bool false)) .int .int
+    List.mem_cons_self (by decide +kernel) rfl rfl
+
+/-- End to end: when the command line parses on its own and the explicit TOML table has a wrongly
+typed value for a known key, `parse_arguments` ends in the TOML diagnostic — the re-raised error, or
+(with `exit_on_error`, i.e. the real CLI) the `fatal: error parsing project toml` line and exit 1.
+Never `ok`, never a command-line error. -/
+theorem C20_invalid_type_end_to_end (w : World) (kv : Str × TVal) (conf : Toml) (argv : List Text)
+    (eoe : Bool) (ns0 : Namespace) (hcli : parse cliParser (argv.map lex) [] = .ok ns0)
+    (k : Str) (v : TVal) (ty : TomlType) (d : Spec.DocType)
+    (hmem : (k, v) ∈ kv :: conf) (hk : Dict.get? tomlTypeMap k = some ty) (hd : docType ty = some d)
+    (hbad : Spec.wellTyped d v = false) :
+    ∃ e, parseArguments w (some (kv :: conf)) argv eoe = tomlErr eoe e := by
+  obtain ⟨e, he⟩ := C20_invalid_diagnosed tomlTypeMap (kv :: conf) k v ty d hmem hk hd hbad
+  refine ⟨e, ?_⟩
+  unfold parseArguments
+  simp only [hcli, he]
 
 /-! ### Which TOML file -/
 
@@ -819,20 +835,6 @@ theorem findPyproject_no_root (w : World) (h : w.cwd.isRoot = false)
 
 private def w0 : World := { overrideFile := none, cwd := { vcs := true, pyproject := none }, parents := [] }
 private def argv0 : List Text := [.word (str "t.py")]
-private def followChoices : Option (List Val) := some [.int 0, .int 1, .int 2, .int 3]
-
-/-- `follow-imports = false`: not an acceptable value, yet no diagnostic — silently ignored. -/
-theorem C20_cex_bool_for_int :
-    Spec.acceptable .int followChoices (.sc (.bool false)) = false ∧
-    outGet (parseArguments w0 (some [(str "follow-imports", .sc (.bool false))]) argv0 false)
-      (str "_follow_imports_level") = some (.int 1) := by
-  decide +kernel
-
-/-- `threshold = false` likewise. -/
-theorem C20_cex_bool_for_int_threshold :
-    outGet (parseArguments w0 (some [(str "threshold", .sc (.bool false))]) argv0 false)
-      (str "threshold") = some (.int 0) := by
-  decide +kernel
 
 /-- `exclude = ["-x"]`: an acceptable value, rejected because argparse re-reads `-x` as an option. -/
 theorem C20_cex_dash_value :
@@ -841,11 +843,21 @@ theorem C20_cex_dash_value :
       = .tomlError (.arg (.expectedOneArgument (str "_excluded_names"))) := by
   decide +kernel
 
-/-- With `exit_on_error=True` (the real CLI) a TOML type error does not end in a diagnostic but in
-`error.fatal` being called before the `Config` singleton exists. -/
-theorem C20_cex_toml_fatal_before_config :
+/-- Regression guards for the two repaired defects (were counterexamples before 0abb989 / f47ae20):
+`follow-imports = false` and `threshold = false` are type errors, and with `exit_on_error` a TOML
+error is a clean fatal exit. -/
+theorem C20_fixed_bool_for_int :
+    parseArguments w0 (some [(str "follow-imports", .sc (.bool false))]) argv0 false
+      = .tomlError (.type (str "follow-imports")) ∧
+    parseArguments w0 (some [(str "threshold", .sc (.bool false))]) argv0 false
+      = .tomlError (.type (str "threshold")) ∧
+    parseArguments w0 (some [(str "threshold", .sc (.bool true))]) argv0 false
+      = .tomlError (.type (str "threshold")) := by
+  decide +kernel
+
+theorem C20_fixed_toml_fatal :
     parseArguments w0 (some [(str "threshold", .sc (.str (.word (str "x"))))]) argv0 true
-      = .tomlFatalBeforeConfig (.type (str "threshold")) := by
+      = .tomlFatal (.type (str "threshold")) := by
   decide +kernel
 
 /-- The help text documents `force_refresh_cache=true` as a TOML option; the type map knows neither
@@ -856,7 +868,7 @@ theorem C20_cex_documented_key_unknown :
     (tomlParser.any fun o => o.dest == str "force_refresh_cache") = true := by
   decide +kernel
 
-/-! ### The full statement (kept visible; false on the pinned tree) -/
+/-! ### The full statement (kept visible; still false: part (b) fails on dash-leading strings) -/
 
 def choicesOfKey (k : Str) : Option (List Val) :=
   match findFlag tomlParser (argName tomlNameMap k) with
@@ -869,7 +881,8 @@ def AllAcceptable (conf : Toml) : Prop :=
     Spec.acceptable d (choicesOfKey k) v = true
 
 /-- C20 in full, for an explicit TOML table and a command line that parses on its own:
-(a) an unacceptable value of a known key is diagnosed;
+(a) an unacceptable value of a known key is diagnosed (for wrong TYPES this now holds:
+    `C20_invalid_type_end_to_end`; out-of-choice values are diagnosed by argparse — Tie B);
 (b) a table of acceptable values (without `strict` and `threshold` together) is accepted, and then
     every common option holds `Spec.effective` (that last part is `C20_precedence`). -/
 def C20_full : Prop :=
@@ -890,12 +903,16 @@ theorem C20_full_false : ¬ C20_full := by
     cases hp : parse cliParser (argv0.map lex) [] with
     | ok ns => exact ⟨ns, rfl⟩
     | error e => rw [hp] at hcli; simp [okGet] at hcli
-  have h1 := (h w0 (str "follow-imports", .sc (.bool false)) [] argv0 hex).1
-    ⟨str "follow-imports", .sc (.bool false), .int, .int, by simp, by decide +kernel, rfl, by decide +kernel⟩
-  obtain ⟨e, he⟩ := h1
-  obtain ⟨ns, hns, _⟩ := outGet_some C20_cex_bool_for_int.2
-  rw [hns] at he
-  cases he
+  have h2 := (h w0 (str "exclude", .list [.str (.word (str "-x"))]) [] argv0 hex).2
+    (by
+      intro k v hm
+      simp only [List.mem_singleton, Prod.mk.injEq] at hm
+      obtain ⟨rfl, rfl⟩ := hm
+      exact ⟨.listOfStrings, .listOfStr, by decide +kernel, rfl, by decide +kernel⟩)
+    (Or.inl (by decide +kernel))
+  obtain ⟨ns, hns⟩ := h2
+  rw [C20_cex_dash_value.2] at hns
+  cases hns
 
 /-! ### Tie A: what the model hard-codes about the tables is what the source says now -/
 
@@ -938,6 +955,15 @@ theorem tieA_toml_type_map :
         | .int => o.action == .store && o.vtype == .int
         | .string => o.action == .store && (o.vtype == .str || (match o.vtype with | .enum _ => true | _ => false))
         | .unknown => false) = true := by
+  decide +kernel
+
+/-- `TomlArgumentType.is_valid` as evaluated on the live enum agrees with the model on every probe
+(in particular: `int` rejects booleans, `flag` rejects 0/1, lists must be all-str). -/
+theorem tieA_is_valid_probes :
+    Generated.C20.isValidProbes.all (fun (ty, probe, verdict) =>
+      match probeVal probe with
+      | some v => (tomlTypeOfRaw ty).isValid v == verdict
+      | none => false) = true := by
   decide +kernel
 
 /-- TOML name map: as regenerated; every renamed key is a key of the type map. -/
